@@ -34,6 +34,23 @@ pub fn live_check<L: KeyboardLayout, R: KeyboardLayout>(name: &str, live: L, ref
     kani::cover!(m.capslock && m.ralt && !m.numlock);
 }
 
+
+/// map_keycode is a *function* of (key, modifiers, mode): the same question gets the same answer
+/// whatever other questions were asked in between (no memo, no static, no interior state in a
+/// layout).  Every per-layout harness asks one question of a fresh layout; this one asks four.
+pub fn function_check<L: KeyboardLayout>(name: &str, l: &L) {
+    let (k1, m1, h1) = (any_key(), any_mods(), any_mode());
+    let (k, m, h) = (any_key(), any_mods(), any_mode());
+    let (k2, m2, h2) = (any_key(), any_mods(), any_mode());
+    let _ = l.map_keycode(k1, &m1, h1);
+    let r1 = l.map_keycode(k, &m, h);
+    let _ = l.map_keycode(k2, &m2, h2);
+    let r2 = l.map_keycode(k, &m, h);
+    crate::show!("layout function {} first=({:?},{:?},{:?}) asked=({:?},{:?},{:?}) -> {:?}; then ({:?},{:?},{:?}); asked again -> {:?}", name, k1, m1, h1, k, m, h, r1, k2, m2, h2, r2);
+    assert!(r1 == r2, "C03/C09/C10/C11/C12/C15/C16/C17 (layout is a function): map_keycode answered the same question differently depending on earlier calls");
+    kani::cover!(k1 == k && m1.numlock != m.numlock);
+}
+
 macro_rules! live_layout {
     ($short:ident, $ty:ident) => {
         pub mod $short {
@@ -41,6 +58,10 @@ macro_rules! live_layout {
             #[kani::proof]
             pub fn live_c03_q_c09_q_c10_q_c11_q_c15_q_c16_q_decoder_after_history() {
                 live_check(stringify!($ty), $ty, &$ty);
+            }
+            #[kani::proof]
+            pub fn pure_c03_q_c09_q_c10_q_c11_q_c12_q_c15_q_c16_q_c17_q_layout_is_a_function() {
+                function_check(stringify!($ty), &$ty);
             }
             /// thorough: the by-reference wrapper inside a live decoder
             #[kani::proof]
